@@ -47,5 +47,29 @@ let handle = function
         | Res.Err -> "ERR"
         | Res.Panic -> "PANIC")
      with Prims.Unsupported _ -> "UNSUPPORTED")
+  | ["signgen"; k; payload; nsig; msg] ->
+    (* split the library's octets into packets: n one-pass packets, the literal packet, n signature packets *)
+    let m = bytes_of_hex msg in
+    let n = int_of_string nsig in
+    let raw_of whole rest = Octets.takeN (n_of_int (Stdlib.List.length whole - Stdlib.List.length rest)) whole in
+    let rec take_packets cnt b acc =
+      if cnt = 0 then Some (Stdlib.List.rev acc, b) else
+        (match Framing.deframe b with
+         | Res.Ok ((_, _), rest) -> take_packets (cnt - 1) rest (raw_of b rest :: acc)
+         | _ -> None) in
+    (match take_packets n m [] with
+     | None -> "ERR one-pass packets"
+     | Some (ops, after_ops) ->
+       (match Framing.deframe after_ops with
+        | Res.Ok ((_, body), after_lit) ->
+          let h = Octets.takeN (n_of_int 6) body in
+          (match take_packets n after_lit [] with
+           | Some (sigs, []) ->
+             let req (i : BinNums.coq_N) : BinNums.coq_N = n_of_int (1 + ((int_of_n i) * 7919) mod 4099) in
+             let (mo, oc) = SignGen.sg_run (nn k) h (fun _ -> sigs) req ops (bytes_of_hex payload) in
+             if oc = Emitter.EClean && mo = SignGen.sg_spec (nn k) h (fun _ -> sigs) ops (bytes_of_hex payload)
+             then hex_of_bytes mo else "MODEL-SPLIT signgen machine /= specification"
+           | _ -> "ERR signature packets")
+        | _ -> "ERR literal packet"))
   | _ -> "MODEL-ERROR unknown op"
 let () = run handle
